@@ -238,6 +238,15 @@ fn connect_unix_nonblocking(path: &std::path::Path) -> Option<UnixStream> {
     }
 }
 
+/// read a daemon's observation socket (never blocks for more than the read time-out)
+pub fn observe_at(path: &std::path::Path) -> Option<statime_linux::metrics::exporter::ObservableState> {
+    let mut s = connect_unix_nonblocking(path)?;
+    s.set_read_timeout(Some(Duration::from_millis(200))).ok()?;
+    let mut v = vec![];
+    s.read_to_end(&mut v).ok()?;
+    serde_json::from_slice(&v).ok()
+}
+
 fn wait_readable(fds: &[i32], timeout: Duration) {
     let mut p: Vec<libc::pollfd> = fds.iter().map(|fd| libc::pollfd { fd: *fd, events: libc::POLLIN, revents: 0 }).collect();
     unsafe {
@@ -247,7 +256,7 @@ fn wait_readable(fds: &[i32], timeout: Duration) {
 
 // ---------------------------------------------------------------- worker world
 
-fn sh(cmd: &str) -> Result<(), String> {
+pub fn sh(cmd: &str) -> Result<(), String> {
     let o = Command::new("sh").arg("-c").arg(cmd).output().map_err(|e| e.to_string())?;
     if o.status.success() {
         Ok(())
@@ -577,11 +586,7 @@ impl World {
     }
 
     pub fn observe(&self) -> Option<statime_linux::metrics::exporter::ObservableState> {
-        let mut s = connect_unix_nonblocking(&self.dir.join("obs.sock"))?;
-        s.set_read_timeout(Some(Duration::from_millis(200))).ok()?;
-        let mut v = vec![];
-        s.read_to_end(&mut v).ok()?;
-        serde_json::from_slice(&v).ok()
+        observe_at(&self.dir.join("obs.sock"))
     }
 
     /// (state of the port on the parent's segment, state of the other port) as rendered by Debug
@@ -1308,7 +1313,8 @@ pub fn case_c17(w: &mut World, t: &mut Tape) -> E2eOut {
 
 /// One case, in real time with explicit bounds:
 ///  1. steady state (port 1 slave, port 2 master) for a generated window: port 2 emits Announce and Sync, port 1
-///     emits Delay_Req, each at no less than 60 % and no more than 150 % (+2) of its configured rate;
+///     emits delay requests; Announce and Sync at no less than 60 % and no more than 150 % (+2) of their configured
+///     rate, the (randomised) delay requests within 4.5 standard deviations of theirs;
 ///  2. the parent falls silent for a generated time; if that is longer than receipt timeout + one interval +
 ///     one BMCA period + 0.5 s, port 1 must have become master and announce on its segment;
 ///  3. the parent returns: within two announce intervals + one BMCA period + 0.6 s port 1 is slave again and
@@ -1325,7 +1331,8 @@ pub fn case_c12(w: &mut World, t: &mut Tape) -> E2eOut {
     w.obs_problems.clear();
     w.obs_misses = 0;
     w.poll_obs_ms = Some(20);
-    let window_ms = t.urange(800, 2000);
+    // (P2P variant: a longer window, so that the request rate can be told from twice or half that rate)
+    let window_ms = if w.variant.p2p { t.urange(3000, 4500) } else { t.urange(800, 2000) };
     let silence_ms = if t.chance(1, 5) { t.urange(100, 300) } else { t.urange(1300, 2200) };
     let rendered = json!({"steady_window_ms": window_ms, "parent_silence_ms": silence_ms});
     out.render = rendered.clone();
@@ -1349,14 +1356,25 @@ pub fn case_c12(w: &mut World, t: &mut Tape) -> E2eOut {
             out.fail(format!("daemon: {} faster than 150 % of the configured rate", name), format!("{} in {} ms (nominal {:.1}) ; {}", got, el, nominal, rendered));
         }
     };
+    // delay requests are sent after a uniformly random time in (0, 2 x interval): over a window of n intervals their
+    // number has mean n and variance n/3; a band of 4.5 standard deviations (+-1) around the mean is asserted
+    let request_rate_check = |name: &str, got: f64, nominal_ms: f64, out: &mut CaseOut| {
+        let n = el / nominal_ms;
+        let sd = (n / 3.0).sqrt();
+        if got < n - 4.5 * sd - 1.0 {
+            out.fail(format!("daemon: {} sent less often than the configured (randomised) interval allows", name), format!("{} in {} ms (mean {:.1}, sd {:.2}) ; {}", got, el, n, sd, rendered));
+        } else if got > n + 4.5 * sd + 1.0 {
+            out.fail(format!("daemon: {} sent more often than the configured (randomised) interval allows", name), format!("{} in {} ms (mean {:.1}, sd {:.2}) ; {}", got, el, n, sd, rendered));
+        }
+    };
     rate_check("Announce of the master port", count(w, 'b', T_ANNOUNCE), ANN_MS as f64, &mut out);
     rate_check("Sync of the master port", count(w, 'b', T_SYNC), ANN_MS as f64, &mut out);
     if w.variant.p2p {
         // the slave port measures the link at the configured delay interval (2^-2 s); statime arms the delay request
         // timer only when a port becomes slave, so a master port that never was slave sends none (not asserted)
-        rate_check("Pdelay_Req of the slave port", count(w, 'a', T_PDELAY_REQ), 250.0, &mut out);
+        request_rate_check("Pdelay_Req of the slave port", count(w, 'a', T_PDELAY_REQ), 250.0, &mut out);
     } else {
-        rate_check("Delay_Req of the slave port", count(w, 'a', T_DELAY_REQ), 250.0, &mut out);
+        request_rate_check("Delay_Req of the slave port", count(w, 'a', T_DELAY_REQ), 250.0, &mut out);
     }
     if count(w, 'a', T_ANNOUNCE) + count(w, 'a', T_SYNC) > 0.0 {
         out.fail("daemon: slave port emits master traffic", format!("{:?}", rendered));
@@ -1655,6 +1673,35 @@ pub fn worker_main(args: &[String]) -> i32 {
     let count: u64 = args.get(3).and_then(|s| s.parse().ok()).unwrap_or(1);
     let stride: u64 = args.get(4).and_then(|s| s.parse().ok()).unwrap_or(1);
     let tape_file = args.get(5).cloned();
+    if prop == "C01" {
+        // networks of daemons: no harness-side PTP traffic, own set-up per case
+        let _ = sh("ip link set lo up");
+        let fixed: Option<Vec<u64>> = tape_file.as_ref().map(|p| {
+            let s = std::fs::read_to_string(p).expect("read replay");
+            let v: Value = serde_json::from_str(&s).expect("parse replay");
+            v["tape"].as_array().expect("tape").iter().map(|x| x.as_u64().unwrap()).collect()
+        });
+        let max_nodes: usize = std::env::var("VERIF_C01_E2E_NODES").ok().and_then(|x| x.parse().ok()).unwrap_or(3);
+        for k in 0..count {
+            let idx = first + k * stride;
+            let mut tape = match &fixed {
+                Some(v) => Tape::replay(v.clone()),
+                None => Tape::fresh(seed ^ hash_str("daemons"), idx),
+            };
+            let r = crate::netd::case_c01(&mut tape, max_nodes, &format!("k{}", k % 10));
+            let line = json!({
+                "index": idx,
+                "tape": tape.recorded(),
+                "inconclusive": r.inconclusive,
+                "violation": r.out.violation.as_ref().map(|v| json!({"sig": v.sig, "detail": v.detail})),
+                "nontrivial": r.out.nontrivial,
+                "labels": r.out.labels,
+                "render": r.out.render,
+            });
+            println!("{}", line);
+        }
+        return 0;
+    }
     let variant = Variant::from_index(first, &prop);
     let (path_trace, udp) = (variant.path_trace, variant.udp);
     if let Err(e) = World::setup_links() {
@@ -1833,7 +1880,7 @@ pub fn run_part(ctx: &Ctx, rep: &mut Report, n: u64, workers: u64) -> PartSummar
         let _ = c.wait();
     }
     rep.parts.push(json!({"part": "daemon", "cases": cases, "inconclusive": inconclusive, "inconclusive_sample": sample_inconclusive, "failures_not_reproduced_in_3_reruns(not counted)": unconfirmed, "workers": workers, "worker_errors": fatal,
-        "wall_s": t0.elapsed().as_secs_f64(), "what": "the real statime daemon (built from /repo) as a two-port boundary clock in a private network namespace over veth pairs; workers alternate between PTP over Ethernet and PTP over UDP/IPv4 and between path trace off and on; announce interval 125 ms, virtual system clock; real time"}));
+        "wall_s": t0.elapsed().as_secs_f64(), "what": if ctx.prop == "C01" { "networks of real statime daemons (built from /repo) in private network namespaces: segments are Linux bridges, ports veth pairs, PTP over Ethernet, announce interval 125 ms, virtual system clocks; the harness only starts, cuts, kills and reads observation sockets; real time" } else { "the real statime daemon (built from /repo) as a two-port boundary clock in a private network namespace over veth pairs; workers alternate between PTP over Ethernet and PTP over UDP/IPv4, path trace off and on, parent on port 1 or port 2 (C12: E2E or P2P); announce interval 125 ms, virtual system clock; real time" }}));
     PartSummary { cases, inconclusive, skipped: None }
 }
 
